@@ -213,6 +213,8 @@ type wPayload struct {
 	CutInner int      `json:"cut_inner"`
 	Wrap     []string `json:"wrap,omitempty"` // gzip | cont | pair:<base> | rpair:<base> | res:A|B|C
 	CutOuter int      `json:"cut_outer"`
+	// Pending: which requests are in flight, "" = A and B, "A" = only A
+	Pending string `json:"pending,omitempty"`
 }
 
 func cut(b []byte, n int) []byte {
@@ -404,7 +406,7 @@ type observation struct {
 }
 
 // run feeds one payload to a fresh connection with requests A and B pending and ping P waited for.
-func run(payload []byte) observation {
+func run(payload []byte, pending []string) observation {
 	clk := neo.NewTime(time.Unix(unixNow, 0))
 	sent := make(chan int64, 8)
 	eng := rpc.New(func(ctx context.Context, msgID int64, seqNo int32, in bin.Encoder) error {
@@ -426,22 +428,23 @@ func run(payload []byte) observation {
 		err  error
 	}
 	results := make(chan doRes, 2)
-	for _, name := range []string{"A", "B"} {
+	for _, name := range pending {
 		name := name
 		go func() {
 			err := eng.Do(context.Background(), rpc.Request{MsgID: ids[name], SeqNo: 1, Input: nopEncoder{}, Output: recs[name]})
 			results <- doRes{name, err}
 		}()
 	}
-	<-sent
-	<-sent // both requests are registered (the handler is installed before the first send)
+	for range pending {
+		<-sent // the request is registered (the handler is installed before the first send)
+	}
 
 	obs := observation{doErr: map[string]error{}, calls: map[string][][]byte{}}
 	finish := func() {
 		// complete whatever the payload left pending, then collect both Do results
 		eng.NotifyError(idA, errSentinel)
 		eng.NotifyError(idB, errSentinel)
-		for i := 0; i < 2; i++ {
+		for range pending {
 			r := <-results
 			obs.doErr[r.name] = r.err
 		}
@@ -468,8 +471,12 @@ func run(payload []byte) observation {
 	return obs
 }
 
-func judge(payload []byte) kit.Result {
-	obs := run(payload)
+func judge(payload []byte, pendingSet string) kit.Result {
+	pending := []string{"A", "B"}
+	if pendingSet == "A" {
+		pending = []string{"A"}
+	}
+	obs := run(payload, pending)
 	var w walker
 	w.walk(payload)
 	count := map[int64]int{}
@@ -477,7 +484,7 @@ func judge(payload []byte) kit.Result {
 		count[n.id]++
 	}
 	var lbl []string
-	for _, name := range []string{"A", "B"} {
+	for _, name := range pending {
 		id := ids[name]
 		calls, derr := obs.calls[name], obs.doErr[name]
 		switch {
@@ -517,6 +524,9 @@ func judge(payload []byte) kit.Result {
 	if len(lbl) > 0 {
 		out = "routed:" + strings.Join(lbl, ",")
 	}
+	if pendingSet != "" {
+		out = "pending=" + pendingSet + ":" + out
+	}
 	dup := false
 	for _, c := range count {
 		if c > 1 {
@@ -546,28 +556,40 @@ type wDeep struct {
 
 func main() {
 	kit.Main("C23", "exploration", func(c *kit.Ctx) {
-		fam := kit.NewFamily(c, "payload", func(w wPayload) kit.Result { return judge(build(w)) })
+		fam := kit.NewFamily(c, "payload", func(w wPayload) kit.Result { return judge(build(w), w.Pending) })
 		deep := kit.NewIsolatedFamily(c, "deep-nesting", 2, 4096, func(w wDeep) kit.Result {
 			b := baseBytes(w.Leaf)
-			for i := 0; i < w.Depth; i++ {
-				switch w.Kind {
-				case "cont":
-					b = cont(b)
-				case "gzip":
+			switch w.Kind {
+			case "cont":
+				// linear-time construction: every level adds 8 bytes of container header and 16 of message header
+				out := make([]byte, 0, len(b)+24*w.Depth)
+				for i := w.Depth; i > 0; i-- {
+					out = reftl.U32(reftl.U32(out, reftl.IDContainer), 1)
+					out = reftl.U32(reftl.U32(reftl.U64(out, uint64(serverMsgID+4)), 1), uint32(len(b)+24*(i-1)))
+				}
+				b = append(out, b...)
+			case "res":
+				out := make([]byte, 0, len(b)+12*w.Depth)
+				for i := 0; i < w.Depth; i++ {
+					out = reftl.U64(reftl.U32(out, reftl.IDRPCResult), uint64(idC))
+				}
+				b = append(out, b...)
+			case "gzip":
+				for i := 0; i < w.Depth; i++ {
 					b = reftl.GzipPacked(reftl.Gzip(b, 0))
-				case "res":
-					b = reftl.RPCResult(idC, b)
-				case "mixed":
+				}
+			case "mixed":
+				for i := 0; i < w.Depth; i++ {
 					if i%2 == 0 {
 						b = reftl.GzipPacked(reftl.Gzip(b, 0))
 					} else {
 						b = cont(b)
 					}
-				default:
-					panic("kind " + w.Kind)
 				}
+			default:
+				panic("kind " + w.Kind)
 			}
-			return judge(b)
+			return judge(b, "")
 		})
 		if c.Replaying() {
 			return
@@ -587,12 +609,12 @@ func main() {
 			c.NotExhaustive("handle_message corpus not found at %s: only generated messages were explored", corpusDir())
 		}
 
-		c.Rule("Each payload is given to handleMessage of a fresh mtproto.Conn (fake clock, no-op logger, recording handler) whose real rpc.Engine holds two pending requests A and B (plus a waited ping). "+
+		c.Rule("Each payload is given to handleMessage of a fresh mtproto.Conn (fake clock, no-op logger, recording handler) whose real rpc.Engine holds two pending requests A and B (plus a waited ping); generated messages and corpus files under a single wrapper are also run with only A pending. "+
 			"Payloads: %d generated service messages (new_session_created, bad_msg_notification / bad_server_salt for A, B and a non-pending id C, future_salts incl. huge and negative counts, pong, msgs_ack, "+
 			"msg_detailed_info, rpc_result for A/B/C with object, empty, rpc_error, gzip-packed object/error/pong/bomb/double gzip, nested result, unknown types, short input) and the %d files of the handle_message corpus; "+
 			"each generated message: cut at every byte, every wrapper sequence of length <=2 (thorough <=3) over {gzip, container, rpc_result A, rpc_result C}, cut at every word inside each single wrapper and of each single-wrapped payload, "+
 			"every ordered pair of generated messages in one container; each corpus file: as is, in a container, gzip-packed, in rpc_result for A and for C, in a container next to a result for B (thorough: also cut at every word, plain and inside rpc_result A). "+
-			"Deep nesting in a worker process (4 GiB limit): containers nested 5000 deep (thorough 40000), gzip nested 200 (1000), rpc_result 10000 (100000), alternating 200 (1000). "+
+			"Deep nesting in a worker process (4 GiB limit): containers nested 3000 deep (thorough 8000; time and memory of the handler are quadratic in the depth because every level copies its body, so the depth is kept where that stays below 1 GiB), gzip nested 200 (1000), rpc_result 10000 (100000), alternating 200 (1000). "+
 			"Oracle: no panic / crash; a reference walk of the payload (containers, gzip via compress/gzip, rpc_result, rpc_error, bad_msg) lists which ids are named with which result bodies; the Output decoder of a pending request may only be "+
 			"called with the body of an rpc_result naming its id, and a pending request may only fail with a payload-supplied error if an rpc_error result or bad_msg notification names its id. distinct = distinct witnesses; payloads shorter than 4 bytes are trivial.",
 			len(baseNames), len(corpus))
@@ -609,16 +631,20 @@ func main() {
 		for _, b := range baseNames {
 			raw := baseBytes(b)
 			heavy := strings.Contains(b, "bomb")
-			add(wPayload{b, -1, nil, -1})
+			add(wPayload{b, -1, nil, -1, ""})
+			add(wPayload{Base: b, CutInner: -1, CutOuter: -1, Pending: "A"})
+			for _, w := range wraps {
+				add(wPayload{Base: b, CutInner: -1, Wrap: []string{w}, CutOuter: -1, Pending: "A"})
+			}
 			if !heavy {
 				for n := 0; n < len(raw); n++ {
-					add(wPayload{b, n, nil, -1})
+					add(wPayload{b, n, nil, -1, ""})
 				}
 			}
 			var rec func(cur []string)
 			rec = func(cur []string) {
 				if len(cur) > 0 {
-					add(wPayload{b, -1, append([]string(nil), cur...), -1})
+					add(wPayload{b, -1, append([]string(nil), cur...), -1, ""})
 				}
 				if len(cur) == maxWrap || (heavy && len(cur) == 1) {
 					return
@@ -633,32 +659,33 @@ func main() {
 			}
 			for _, w := range wraps {
 				for n := 0; n < len(raw); n += 4 {
-					add(wPayload{b, n, []string{w}, -1})
+					add(wPayload{b, n, []string{w}, -1, ""})
 				}
-				full := build(wPayload{b, -1, []string{w}, -1})
+				full := build(wPayload{b, -1, []string{w}, -1, ""})
 				for n := 0; n < len(full); n += 4 {
-					add(wPayload{b, -1, []string{w}, n})
+					add(wPayload{b, -1, []string{w}, n, ""})
 				}
 			}
 			for _, o := range baseNames {
 				if strings.Contains(o, "bomb") {
 					continue
 				}
-				add(wPayload{b, -1, []string{"pair:" + o}, -1})
+				add(wPayload{b, -1, []string{"pair:" + o}, -1, ""})
 			}
 		}
 		for _, f := range corpus {
 			b := "corpus:" + f
-			add(wPayload{b, -1, nil, -1})
+			add(wPayload{b, -1, nil, -1, ""})
 			for _, w := range wraps {
-				add(wPayload{b, -1, []string{w}, -1})
+				add(wPayload{b, -1, []string{w}, -1, ""})
+				add(wPayload{b, -1, []string{w}, -1, "A"})
 			}
-			add(wPayload{b, -1, []string{"rpair:res:B:obj"}, -1})
+			add(wPayload{b, -1, []string{"rpair:res:B:obj"}, -1, ""})
 			if c.Thorough() {
 				raw := baseBytes(b)
 				for n := 0; n < len(raw); n += 4 {
-					add(wPayload{b, n, nil, -1})
-					add(wPayload{b, n, []string{"res:A"}, -1})
+					add(wPayload{b, n, nil, -1, ""})
+					add(wPayload{b, n, []string{"res:A"}, -1, ""})
 				}
 			}
 		}
@@ -673,9 +700,9 @@ func main() {
 			c.NotExhaustive("time budget hit inside the payload family")
 		}
 
-		dj := []wDeep{{"cont", 5000, "res:A:obj"}, {"gzip", 200, "res:A:obj"}, {"res", 10000, "res:A:obj"}, {"mixed", 200, "res:B:obj"}, {"cont", 5000, "empty"}}
+		dj := []wDeep{{"cont", 3000, "res:A:obj"}, {"gzip", 200, "res:A:obj"}, {"res", 10000, "res:A:obj"}, {"mixed", 200, "res:B:obj"}, {"cont", 3000, "empty"}}
 		if c.Thorough() {
-			dj = append(dj, wDeep{"cont", 40000, "res:A:obj"}, wDeep{"gzip", 1000, "res:A:err"}, wDeep{"res", 100000, "res:B:obj"}, wDeep{"mixed", 1000, "res:A:obj"})
+			dj = append(dj, wDeep{"cont", 8000, "res:A:obj"}, wDeep{"gzip", 1000, "res:A:err"}, wDeep{"res", 100000, "res:B:obj"}, wDeep{"mixed", 1000, "res:A:obj"})
 		}
 		kit.Parallel(len(dj), 2, func(i int) { deep.Eval(dj[i]) })
 		_ = fmt.Sprint
